@@ -579,10 +579,14 @@ func (d *Directory) handleModify(t TestingT) func(w *gldap.ResponseWriter, r *gl
 				}
 			case gldap.ReplaceAttribute:
 				if foundAttr != nil {
-					// we're updating what the ptr points at, so disable lint of
-					// unused var
-					//nolint:staticcheck
-					foundAttr = gldap.NewEntryAttribute(chg.Modification.Type, chg.Modification.Vals)
+					// replace the entry's attribute (assigning to foundAttr
+					// would only change the local variable)
+					vals, err := gldap.ConvertString(chg.Modification.Vals...)
+					if err != nil {
+						// not ber encoded strings, so use them as they are
+						vals = chg.Modification.Vals
+					}
+					e.Attributes[foundAt] = gldap.NewEntryAttribute(chg.Modification.Type, vals)
 				}
 			}
 		}
